@@ -16,7 +16,9 @@ prop("C15",
                 "dumps of generated histories (prior states = outputs of other cluster states + junk + foreign rules; "
                 "restart / periodic resync / one event per changed object / UPDATE transitions on a live manager: "
                 "option-only change of a set member, except added / removed, peer moved between cidr and except, pod "
-                "relabelled, last policy deleted, one failing `ipset create`), including the flow verdicts of the final "
+                "relabelled, last policy deleted, one failing `ipset create` for each set position from an empty kernel "
+                "and with existing chains), clause 4 judged at SUBMISSION time by inspecting every batch / command "
+                "against the kernel state whether or not the fake rejects it, including the flow verdicts of the final "
                 "rules vs those of a from-scratch sync.",
      level_note="the sync model (`syncRules`/`syncPods`/`fullSync` over strict primitive semantics at the level of "
                 "structured rules) is hand-written; every sync step of the real code over harness/nf is compared with it "
